@@ -10,7 +10,7 @@ import corr  # noqa
 import progcommon as P  # noqa
 from lib import f32, f2h, h2f  # noqa
 
-MODULES = ["InovesaModel.Props.C03", "InovesaModel.Props.C03Main", "InovesaModel.Props.TieRuler", "InovesaModel.Props.TieRF", "InovesaModel.Props.TieDrift", "InovesaModel.Props.TieMain", "InovesaModel.Props.TieKick"]
+MODULES = ["InovesaModel.Props.C03", "InovesaModel.Props.C03Main", "InovesaModel.Props.TieRuler", "InovesaModel.Props.TieRF", "InovesaModel.Props.TieDrift", "InovesaModel.Props.TieMain", "InovesaModel.Props.TieKick", "InovesaModel.Props.TiePhysics"]
 LEVEL = "proof"
 
 
